@@ -14,7 +14,9 @@ The model is the algorithm of the reference implementation (dart-sass `SelectorL
 complex selector the results for all parents, then the per-inner result lists are interleaved ("flattened vertically"),
 which is outer-major order whenever all the lists have the same length.
 """
-from . import selgen as sg
+import re
+
+from . import css, selgen as sg
 
 COMBS = (' ', '>', '+', '~')
 SUFFIXABLE = ('type', 'class', 'id', 'ph')
@@ -79,6 +81,18 @@ def simple_has_kind(s, kind):
 
 def complex_has_kind(cx, kind):
     return any(simple_has_kind(s, kind) for comp in compounds(cx) for s in comp)
+
+
+def has_repeated_simple(lst):
+    """some compound of the list has the same simple selector twice (`.e_y.e_y`: can arise from a suffix)"""
+    for cx in lst:
+        for comp in compounds(cx):
+            texts = [r_simple(s) for s in comp]
+            if len(set(texts)) != len(texts):
+                return True
+            if any(s[0] == 'ps' and has_repeated_simple(s[2]) for s in comp):
+                return True
+    return False
 
 
 def count_amp(cx):
@@ -164,8 +178,10 @@ def resolve_list(lst, parents, implicit=True, dev=frozenset()):
 # ------------------------------------------------------------------ the model: what a placeholder makes invisible
 
 def _visible_compound(comp):
-    """None if the compound can match nothing that is emitted (contains a placeholder); else the compound as emitted"""
+    """None if the compound can match nothing that is emitted (contains a placeholder); else the compound as emitted.
+    A compound of which only `*` is left after a `:not(%x)` was dropped is marked (3rd element 'from-empty')."""
     out = []
+    dropped = False
     for s in comp:
         if s[0] == 'ph':
             return None
@@ -173,15 +189,26 @@ def _visible_compound(comp):
             members = visible_list(s[2])
             if s[1] == 'not':
                 if not members:
-                    continue                 # :not(<nothing>) matches everything: it is dropped, the rest stays
+                    dropped = True           # :not(<nothing>) matches everything: it is dropped, the rest stays
+                    continue
             elif not members:
                 return None                  # :is(<nothing>) matches nothing
             out.append(['ps', s[1], members])
         else:
             out.append(s)
-    if not out:
-        out = [['univ', '*']]              # only `:not(%x)`s: every element
+    if dropped and all(s[0] == 'univ' for s in out):
+        out = [['univ', '*', 'from-empty']]  # only `:not(%x)`s (and `*`): every element
     return out
+
+
+def has_empty_star(lst):
+    """the emitted list has a compound that is `*` only because all its `:not(%x)` were dropped"""
+    for cx in lst:
+        for comp in compounds(cx):
+            for s in comp:
+                if (s[0] == 'univ' and len(s) > 2) or (s[0] == 'ps' and has_empty_star(s[2])):
+                    return True
+    return False
 
 
 def visible_complex(cx):
@@ -236,9 +263,16 @@ PS_NAMES = ['not', 'not', 'is', 'is', 'where', 'matches', 'has', 'any']
 
 
 class NG:
-    def __init__(self, rng, p_ph=0.0, p_ps=0.08, p_shuffle=0.25, p_dup=0.0):
+    def __init__(self, rng, p_ph=0.0, p_ps=0.08, p_shuffle=0.25, p_dup=0.0, ph_inside=False, max_ps_depth=1,
+                 p_sfx_reordered=0.12, ps_amp_with_ph=False, ps_names=None, p_lone_ps=0.0):
         self.rng = rng
         self.p_ph, self.p_ps, self.p_shuffle, self.p_dup = p_ph, p_ps, p_shuffle, p_dup
+        self.ph_inside = ph_inside                  # placeholders also inside pseudo-class arguments
+        self.max_ps_depth = max_ps_depth            # nesting of selector pseudo-classes in plain selectors
+        self.p_sfx_reordered = p_sfx_reordered      # chance that `&-suffix` is used on a parent not written in canonical order
+        self.ps_amp_with_ph = ps_amp_with_ph        # `&` inside a pseudo-class argument although a parent has a placeholder
+        self.ps_names = ps_names or PS_NAMES
+        self.p_lone_ps = p_lone_ps                  # a compound that is nothing but a selector pseudo-class
 
     # -- plain selectors (no parent reference)
     def extra(self, info=None, allow_id=True):
@@ -256,11 +290,13 @@ class NG:
     def plain_ps(self, depth):
         rng = self.rng
         n = rng.choice([1, 1, 2])
-        return ['ps', rng.choice(PS_NAMES), [self.plain_complex(maxlen=2, pe=False, depth=depth + 1) for _ in range(n)]]
+        return ['ps', rng.choice(self.ps_names), [self.plain_complex(maxlen=2, pe=False, depth=depth + 1) for _ in range(n)]]
 
-    def plain_compound(self, pe=False, depth=0, ph_inside=False):
+    def plain_compound(self, pe=False, depth=0):
         rng = self.rng
         head, parts = [], []
+        if self.p_lone_ps and depth < self.max_ps_depth and rng.random() < self.p_lone_ps:
+            return [self.plain_ps(depth)]
         r = rng.random()
         if r < 0.42:
             head.append(['type', rng.choice(TYPES)])
@@ -276,9 +312,9 @@ class NG:
             parts.append(['attr', rng.choice(ATTRS)])
         if rng.random() < 0.18:
             parts.append(['pc', rng.choice(PCS)])
-        if depth < 1 and rng.random() < self.p_ps:
+        if depth < self.max_ps_depth and rng.random() < self.p_ps:
             parts.append(self.plain_ps(depth))
-        if rng.random() < self.p_ph and (depth == 0 or ph_inside):
+        if rng.random() < self.p_ph and (depth == 0 or self.ph_inside):
             parts.append(['ph', rng.choice(PHS)])
         if not head and not parts:
             parts.append(['class', rng.choice(CLASSES)])
@@ -291,14 +327,14 @@ class NG:
     def comb(self):
         return self.rng.choice([' ', ' ', ' ', '>', '>', '+', '~'])
 
-    def plain_complex(self, maxlen=3, pe=False, depth=0, ph_inside=False):
+    def plain_complex(self, maxlen=3, pe=False, depth=0):
         rng = self.rng
         n = rng.choice([1, 1, 1, 2, 2, 3][:(3 if maxlen < 2 else 5 if maxlen < 3 else 6)])
         out = ['']
         for k in range(n):
             if k:
                 out.append(self.comb())
-            out.append(self.plain_compound(pe=pe and k == n - 1, depth=depth, ph_inside=ph_inside))
+            out.append(self.plain_compound(pe=pe and k == n - 1, depth=depth))
         return out
 
     def plain_list(self, maxn=3, pe=False):
@@ -331,7 +367,7 @@ class NG:
     def suffix_ok(self, info):
         # parents whose last compound is not written in canonical order (`:hover.c`, `.c#i`) run into a listed defect
         # of the tree: still generated, but seldom, so that they do not crowd out everything else
-        return info['suffixable'] and (not info['suffix_reordered'] or self.rng.random() < 0.12)
+        return info['suffixable'] and (not info['suffix_reordered'] or self.rng.random() < self.p_sfx_reordered)
 
     def amp_compound(self, info, must_change=False):
         """a compound that starts with `&`"""
@@ -368,7 +404,7 @@ class NG:
                 members.append(['', [['amp', '']], self.comb(), self.plain_compound(depth=1)])
             else:
                 members.append(['', self.plain_compound(depth=1), self.comb(), [['amp', '']]])
-        return ['ps', rng.choice(PS_NAMES), members]
+        return ['ps', rng.choice(self.ps_names), members]
 
     FORMS = [('implicit', 30), ('lead-comb', 12), ('amp-append', 14), ('amp-suffix', 10), ('amp-alone', 3), ('amp-first', 8),
              ('amp-last', 8), ('amp-middle', 3), ('multi-amp', 5), ('amp-in-pseudo', 10)]
@@ -381,7 +417,7 @@ class NG:
             forms = [(f, w) for f, w in self.FORMS
                      if not (f == 'amp-suffix' and not sfx)
                      and not (f == 'amp-append' and info['last_pe'])
-                     and not (f == 'amp-in-pseudo' and info['has_ph'])]
+                     and not (f == 'amp-in-pseudo' and info['has_ph'] and not self.ps_amp_with_ph)]
             form = rng.choices([f for f, _ in forms], [w for _, w in forms])[0]
         pe = leaf
         if form == 'implicit':
@@ -465,7 +501,7 @@ def gen_tree(ng, serial_start=1, depth=None, cap=40, p_pe_trunk=0.1, max_rules=8
             for _ in range(6):
                 sel, forms = ng.inner_list(info, pe)
                 resolved = resolve_list(sel, parents)
-                if len(resolved) <= cap and len(r_list(resolved)) <= 2500:
+                if len(resolved) <= cap and len(r_list(resolved)) <= 2500 and (ng.p_dup > 0 or not has_repeated_simple(resolved)):
                     break
             else:
                 sel, forms = [ng.plain_complex(maxlen=1)], ['implicit']
@@ -548,3 +584,41 @@ def dedupe_canon(c):
             return (s[0], s[1], s[2], ('sel', tuple(tuple(comp(p) for p in cx) for cx in s[3][1])))
         return s
     return tuple(tuple(comp(p) for p in cx) for cx in c)
+
+
+# ------------------------------------------------------------------ reading the output of a nest
+
+DECL = re.compile(r'^p(\d+)$')
+
+
+def read_output(text):
+    """-> (decls: serial -> [(doc index, canonical selector or None, raw prelude)], problems [(sig, detail)])"""
+    decls, problems = {}, []
+    try:
+        nodes = css.parse(css.strip_header(text))
+    except css.ParseProblem as e:
+        return decls, [('output-unreadable', str(e))]
+    idx = 0
+    for nd in nodes:
+        if nd['t'] == 'comment':
+            continue
+        if nd['t'] != 'rule' or nd['prelude'].startswith('@'):
+            problems.append(('output-unexpected-node', str(nd)[:200]))
+            continue
+        raw = nd['raw_prelude'].strip()
+        c = sg.canon_or_none(raw)
+        for b in nd['body']:
+            if b['t'] == 'comment':
+                continue
+            m = DECL.match(b.get('name', '')) if b['t'] == 'decl' else None
+            if not m or b['value'].strip() != m.group(1):
+                problems.append(('output-unexpected-node', '%s in %s' % (str(b)[:120], raw[:80])))
+                continue
+            decls.setdefault(int(m.group(1)), []).append((idx, c, raw))
+            idx += 1
+    return decls, problems
+
+
+def unhidden_placeholder(raw):
+    """`%name` in an emitted selector, outside strings"""
+    return any(k == 'other' and re.search(r'%[A-Za-z_-]', t) for k, t in css.scan(raw))
